@@ -30,16 +30,17 @@ import (
 // ---------- scripted transport ----------
 
 type scriptConn struct {
-	mu      sync.Mutex
-	chunks  [][]byte
-	pause   []time.Duration
-	idx     int
-	closed  chan struct{}
-	once    sync.Once
-	writes  [][]byte
-	wsignal chan struct{}
-	rdl     time.Time // read deadline, as set through SetDeadline / SetReadDeadline
-	waited  bool      // the silence before the current chunk has been served
+	mu       sync.Mutex
+	chunks   [][]byte
+	pause    []time.Duration
+	idx      int
+	closed   chan struct{}
+	once     sync.Once
+	writes   [][]byte
+	wsignal  chan struct{}
+	eofAtEnd bool      // the peer closes after its last byte: Read reports end of stream
+	rdl      time.Time // read deadline, as set through SetDeadline / SetReadDeadline
+	waited   bool      // the silence before the current chunk has been served
 }
 
 func newScriptConn(chunks [][]byte, pause []time.Duration) *scriptConn {
@@ -101,7 +102,11 @@ func (c *scriptConn) Read(b []byte) (int, error) {
 		c.mu.Unlock()
 		return copy(b, ch), nil
 	}
+	eof := c.eofAtEnd
 	c.mu.Unlock()
+	if eof {
+		return 0, io.EOF
+	}
 	for { // nothing more to deliver: a blocked Read, ended by Close or by a read deadline
 		if err := c.readWait(50 * time.Millisecond); err != nil {
 			return 0, err
@@ -125,10 +130,10 @@ func (c *scriptConn) Write(b []byte) (int, error) {
 	return len(b), nil
 }
 
-func (c *scriptConn) Close() error                       { c.once.Do(func() { close(c.closed) }); return nil }
-func (c *scriptConn) LocalAddr() net.Addr                { return &net.TCPAddr{} }
-func (c *scriptConn) RemoteAddr() net.Addr               { return &net.TCPAddr{} }
-func (c *scriptConn) SetDeadline(t time.Time) error      { return c.SetReadDeadline(t) }
+func (c *scriptConn) Close() error                  { c.once.Do(func() { close(c.closed) }); return nil }
+func (c *scriptConn) LocalAddr() net.Addr           { return &net.TCPAddr{} }
+func (c *scriptConn) RemoteAddr() net.Addr          { return &net.TCPAddr{} }
+func (c *scriptConn) SetDeadline(t time.Time) error { return c.SetReadDeadline(t) }
 func (c *scriptConn) SetReadDeadline(t time.Time) error {
 	c.mu.Lock()
 	c.rdl = t
@@ -265,6 +270,9 @@ func genMessage(r *rng.R, conn int, k int) []byte {
 		}
 		if r.Chance(1, 10) {
 			v = strings.Repeat("y", r.Range(100, 5000))
+		}
+		if r.Chance(1, 40) { // the text "10=" where a reader with a 4 KiB buffer would cut a long field
+			v = strings.Repeat("z", 4096-len(tag)-1) + "10=" + strconv.Itoa(r.Range(100, 999))
 		}
 		sb.WriteString(tag + "=" + v + "\x01")
 	}
@@ -517,6 +525,10 @@ func runDefaultHandler(id int, r *rng.R, role string, bufSize int) {
 	}
 	chunks := partition(r, stream, 0) // one read: the messages arrive together
 	sc := newScriptConn(chunks, nil)
+	// every second burst is the last thing the peer does: it closes the connection right behind it;
+	// what arrived complete before the close still belongs to the handler
+	closing := r.Chance(1, 2)
+	sc.eofAtEnd = closing
 	var mu sync.Mutex
 	var got [][]byte
 	slow := time.Duration(r.Range(200, 1500)) * time.Microsecond
@@ -551,8 +563,8 @@ func runDefaultHandler(id int, r *rng.R, role string, bufSize int) {
 	delivered := append([][]byte{}, got...)
 	mu.Unlock()
 	stop()
-	rec := &Rec{ID: id, Mode: "stream-default-handler", Case: fmt.Sprintf("%s burst of %d messages, handler delay %s, buffers %d", role, n, slow, bufSize),
-		Oracle: map[string]string{}, Tags: []string{"default-handler", role, fmt.Sprintf("buf=%d", bufSize)}, Size: len(stream), Skip: true}
+	rec := &Rec{ID: id, Mode: "stream-default-handler", Case: fmt.Sprintf("%s burst of %d messages, handler delay %s, buffers %d, peer closes behind the burst: %v", role, n, slow, bufSize, closing),
+		Oracle: map[string]string{}, Tags: []string{"default-handler", role, fmt.Sprintf("buf=%d", bufSize), fmt.Sprintf("close-behind-burst=%v", closing)}, Size: len(stream), Skip: true}
 	rec.Impl = fmt.Sprintf("delivered=%d", len(delivered))
 	verdict := "ok"
 	if len(delivered) != n {
